@@ -33,11 +33,13 @@ def run_cases(v, wd, name, cases):
     """real code on the cases, TLC on the observations. returns (observations, rejects [(obs index, why)], nbig)"""
     inp = os.path.join(wd, name + ".in.ndjson")
     out = os.path.join(wd, name + ".out.ndjson")
-    write_ndjson(inp, cases)
-    vh(["zone-text", inp, out], timeout=1200)
-    obs = read_ndjson(out)
+    # a parse or write that never returns, or takes the process down, is data (reported like a panic: the case is kept)
+    obs, crashes = wc.run_harness_lines("zone-text", inp, out, cases, timeout=max(120, len(cases) // 40), max_crashes=6)
     good = []
     panics = []
+    for idx, reason in crashes:
+        c = cases[idx] if idx < len(cases) else {}
+        panics.append({"ev": "panic", "msg": "no result: " + reason, "in": c})
     for o in obs:
         if o.get("ev") == "panic":
             panics.append(o)
